@@ -754,6 +754,15 @@ static int _GD_AddSpec(DIRFILE* D, const char* line, const char* parent,
   /* Update aliases */
   _GD_UpdateAliases(D, 0);
 
+  /* Invalidate the field lists */
+  if (E) {
+    E->e->fl.value_list_validity = 0;
+    E->e->fl.entry_list_validity = 0;
+  } else {
+    D->fl.value_list_validity = 0;
+    D->fl.entry_list_validity = 0;
+  }
+
   D->fragment[me].modified = 1;
   D->flags &= ~GD_HAVE_VERSION;
   dreturn("%i", GD_E_OK);
